@@ -449,7 +449,14 @@ int main(int argc, char** argv)
             bool pf = a["pf0"] == "1", df = a["df0"] == "1", stt = a["st"] == "1", sti = a["si"] == "1";
             int minir = atoi(a["minir"].c_str()), nfail = atoi(a["nfail"].c_str());
             bool over = s._isRefinementOver(pf, df, bv, sv, rv, dv, minir, stt, sti, nfail);
-            printf(" over=%d pf=%d df=%d st=%d si=%d\n", over ? 1 : 0, pf ? 1 : 0, df ? 1 : 0, stt ? 1 : 0, sti ? 1 : 0);
+            printf(" over=%d pf=%d df=%d st=%d si=%d", over ? 1 : 0, pf ? 1 : 0, df ? 1 : 0, stt ? 1 : 0, sti ? 1 : 0);
+            // progress control of the refinement loop
+            Rational mx;
+            Rational best = (!a.count("best") || a["best"] == "inf") ? s._rationalPosInfty : Rational(a["best"]);
+            const Rational factor(a.count("factor") ? a["factor"] : std::string("16"));
+            int nf = nfail;
+            s._checkRefinementProgress(bv, sv, rv, dv, mx, best, factor, nf);
+            printf(" mx=%s best=%s nf=%d\n", mx.str().c_str(), best >= s._rationalPosInfty ? "inf" : best.str().c_str(), nf);
          }
          catch(const SPxException& e)
          {
@@ -483,7 +490,7 @@ int main(int argc, char** argv)
             continue;
          }
 
-         alarm(600);
+         alarm(40);   // a solve that ignores its time limit is killed (SIGALRM) and reported
 
          try
          {
